@@ -253,6 +253,9 @@ impl Directive {
                         } else {
                             bail!("unknown device {} in {}", value, point,)
                         }
+                    } else {
+                        // anything but a plain name (a number, a string, `ATmega8-16`, nothing) selects no device
+                        bail!("wrong format for .device, expected: {} in {}", opts, point,);
                     }
                 } else {
                     bail!("wrong format for .device, expected: {} in {}", opts, point,);
